@@ -109,7 +109,7 @@ fn expect_token(p: &mut LuaDocParser, token: LuaTokenKind) -> Result<(), LuaPars
         p.bump();
         Ok(())
     } else {
-        Err(LuaParseError::syntax_error_from(
+        Err(LuaParseError::doc_error_from(
             &t!(
                 "expected %{token}, but get %{current}",
                 token = token,
